@@ -8,7 +8,9 @@ PID = "C10"
 
 
 def cfgs(tier):
-    c = [(2, 1, 0), (2, 1, 1), (2, 1, 2), (3, 1, 2)]
+    # (rows, cols, storage); storage 3 = row-major sparse, 4 = row-major dynamic dense.  WIDE shapes (rows < cols) separate "number of
+    # unknowns" from every other extent of J (outerSize of a row-major matrix is its number of ROWS)
+    c = [(2, 1, 0), (2, 1, 1), (2, 1, 2), (3, 1, 2), (1, 2, 3), (2, 1, 3)]   # (1,2,4) row-major dense: > 15 min (probed), outside
     if tier == "thorough":
         c += [(2, 2, 0), (2, 2, 1), (2, 2, 2), (4, 1, 0), (4, 1, 2)]   # 3x2 and 3x3 with symbolic pivoting exceed 15 min per configuration (probed): outside
     return c
@@ -51,7 +53,7 @@ def job_ldlt(cf, cfall, tier):
     ins = [x for row in J for x in row] + d + r + [lam]
     asm = [(Cond("cmp", x, T.Const(Fraction(1, 10**6)), "oge"), True) for x in d + [lam]] + [(Cond("cmp", lam, T.Const(10**6), "ole"), True)]
     fn = "ldlt_%d_%d_%d" % (R, C, M)
-    key = "solve_linear_ldlt/%dx%d/%s" % (R, C, ["static", "dynamic", "sparse"][M])
+    key = "solve_linear_ldlt/%dx%d/%s" % (R, C, ["static", "dynamic", "sparse", "sparse-rowmajor", "dynamic-rowmajor"][M])
 
     def sampler(k):
         rr = random.Random(k)
@@ -146,7 +148,7 @@ def main(tier):
     check.run_jobs([(_compile, (cf, tier))])
     jobs = [(job_ldlt, (c, cf, tier)) for c in cf] + [(job_trust, (1, cf, tier))] + ([(job_trust, (2, cf, tier))] if tier == 'thorough' else []) + [ (job_colnorm, (0, cf, tier)), (job_colnorm, (1, cf, tier))]
     run.extend(check.run_jobs(jobs, timeout=1200 if tier == "quick" else 1800))
-    run.bounds += ["(rows, cols, storage 0=static 1=dynamic 2=sparse): %s ; J, r fully symbolic (rank-deficient J included), d >= 1e-6 (the clamp minimize applies), lambda, Delta in [1e-6, 1e6]" % cf]
+    run.bounds += ["(rows, cols, storage 0=static 1=dynamic 2=sparse 3=sparse row-major 4=dynamic row-major): %s ; J, r fully symbolic (rank-deficient J included), d >= 1e-6 (the clamp minimize applies), lambda, Delta in [1e-6, 1e6]" % cf]
     run.assumptions += ["layer R: exact arithmetic; the 1e-8 backward error, the cond<=1e8 dense/sparse agreement and sizes up to 40x40 are floating-point statements outside the claim",
                         "Eigen's pivoting LDLT is executed symbolically: every pivot order is a path"]
     return run.finish()
